@@ -100,13 +100,13 @@ class RecordingSource:
         self.log = log
 
     def find_system(self, lookup_key, lookup_value):
-        self.log.append(["find", lookup_key, lookup_value if isinstance(lookup_value, str) else repr(lookup_value)])
+        self.log.append(["find", lookup_key, lookup_value if isinstance(lookup_value, str) else P.tagged(lookup_value)])
         if self.spec.get("find_raises"):
             raise RuntimeError("scripted find_system failure")
         return self.spec.get("find", {}).get(lookup_value)
 
     def get_data(self, system_id, preloaded_data, preloaded_data_version):
-        entry = ["data", system_id if isinstance(system_id, str) else repr(system_id)]
+        entry = ["data", system_id if isinstance(system_id, str) else P.tagged(system_id)]
         if preloaded_data != {} or preloaded_data_version != "":
             entry.append({"unexpected_args": [repr(preloaded_data), repr(preloaded_data_version)]})
         self.log.append(entry)
